@@ -24,6 +24,8 @@ use send::{BytesSource, Send, SendState};
 pub use send::{FinishError, WriteError, Written};
 
 mod state;
+#[cfg(quinn_rs_quinn_verif)]
+pub(crate) mod verif_hooks;
 #[allow(unreachable_pub)] // fuzzing only
 pub use state::StreamsState;
 
